@@ -22,7 +22,7 @@ every name and every registry content, not only for the enumerated programs.
 """
 import z3
 
-from ..pyvc.engine import Executor, State, Obj, Opaque, Returned, Raised, LoopContract
+from ..pyvc.engine import Executor, State, Obj, Opaque, Returned, Raised, LoopContract, to_z3 as to_z3_
 from ..pyvc.harness import Target
 
 MOD = "synapgrad/nn/modules.py"
@@ -386,6 +386,116 @@ def targets():
             return [("acts_on_every_listed_parameter", ctx["want"](RG, Z, pfun(ctx["j"]))),
                     ("leaves_other_parameters_alone", z3.And(z3.Select(RG, ctx["o"]) == z3.Select(ctx["RG0"], ctx["o"]), z3.Select(Z, ctx["o"]) == z3.Select(ctx["Z0"], ctx["o"])))]
         ts.append(Target(NAME + meth + "[every listed parameter, no other]", MOD, "Module." + meth, setup, ens, executor=lambda: Executor(), key={"method": meth}))
+
+    # ---- num_params: the sum of the sizes of the listed parameters, split by their requires_grad flag -- for every number of parameters (spec functions S / St / Sn are
+    #      defined by recursion over the list; the loop invariant is "the three counters are S(k), St(k), Sn(k)"); which of the three is returned follows the two flags
+    sizef, rgf = z3.Function("size_of", I, I), z3.Function("requires_grad_of_param", I, B)
+    S, St, Sn = z3.Function("S", I, I), z3.Function("St", I, I), z3.Function("Sn", I, I)
+
+    def setup_np(ex):
+        s = State()
+        me = Obj("Module")
+        n = z3.Int("n")
+        tr, ntr = z3.Bools("trainable non_trainable")
+        i_ = z3.Int("i_")
+        s.pc += [n >= 0, S(0) == 0, St(0) == 0, Sn(0) == 0]
+
+        def unfold(i_):       # the recursive definition of the spec functions, instantiated where the proof needs it (quantifier-free: refutations come with a model)
+            return z3.And(S(i_ + 1) == S(i_) + sizef(pfun(i_)), St(i_ + 1) == St(i_) + z3.If(rgf(pfun(i_)), sizef(pfun(i_)), 0),
+                          Sn(i_ + 1) == Sn(i_) + z3.If(rgf(pfun(i_)), 0, sizef(pfun(i_))))
+        ex.attr_models[("Parameter", "requires_grad")] = lambda ex_, st, obj: rgf(st.attrs(obj)["id"])
+        ex.attr_models[("Parameter", "size")] = lambda ex_, st, obj: sizef(st.attrs(obj)["id"])
+        names = ("num_params", "num_trainable", "num_non_trainable")
+
+        def havoc(st, k):
+            for nm in names:
+                st.env[nm] = z3.Int("%s_at_%s" % (nm, k))
+            st.pc.append(unfold(k))
+
+        def inv(st, k):
+            return [("counters_are_the_partial_sums", z3.And(*[to_z3_(st.env[nm]) == f(k) for nm, f in zip(names, (S, St, Sn))]))]
+
+        def bind(st, k):
+            p_ = Obj("Parameter")
+            st.attrs(p_)["id"] = pfun(k)
+            return p_
+        ex.loop_contracts = {"self.parameters()": LoopContract("parameter_loop", lambda st: n, inv, havoc, bind)}
+        return s, [me, tr, ntr], {"n": n, "tr": tr, "ntr": ntr}
+
+    def ens_np(ctx, s, out):
+        if isinstance(out, Raised):
+            return [("completes", False)]
+        n, v = ctx["n"], to_z3_(out.value)
+        return [("total_trainable_or_frozen_element_count_as_selected", v == z3.If(ctx["tr"], St(n), z3.If(ctx["ntr"], Sn(n), S(n))))]
+
+    def replay_np(ctx, model, clause):
+        from synapgrad.nn.modules import Module, Parameter
+        import numpy as np
+
+        class T(Module):
+            def forward(self, x):
+                return x
+        m_ = T()
+        sizes, flags = (1, 2, 3, 5), (True, False, True, False)
+        for k_, (sz, f_) in enumerate(zip(sizes, flags)):
+            setattr(m_, "p%d" % k_, Parameter(np.ones(sz, dtype=np.float32), requires_grad=f_))
+        got = (m_.num_params(), m_.num_params(trainable=True), m_.num_params(non_trainable=True))
+        want = (11, 4, 7)
+        return {"module": "four parameters of sizes %s with requires_grad %s" % (sizes, flags), "num_params / trainable / non_trainable": got, "expected": want,
+                "reproduced": got != want, "native_satisfies_contract": got == want}
+    ts.append(Target(NAME + "num_params[any number of listed parameters]", MOD, "Module.num_params", setup_np, ens_np, replay=replay_np, executor=lambda: Executor()))
+
+    # ---- Sequential.forward: the submodules are applied in registration order, each to the result of the one before -- for every number of submodules
+    app, Fx = z3.Function("apply", I, I, I), z3.Function("F", I, I)
+
+    def setup_sf(ex):
+        s = State()
+        me = Obj("Sequential")
+        n, x = z3.Ints("n x")
+        i_ = z3.Int("i_")
+        s.pc += [n >= 0, Fx(0) == x]
+        ex.models["Module.__call__"] = lambda ex_, st, args, kw: app(st.attrs(args[0])["id"], to_z3_(args[1]))
+
+        def havoc(st, k):
+            st.env["out"], st.env["inp"] = z3.Int("out_at_%s" % k), z3.Int("inp_at_%s" % k)
+            st.pc.append(Fx(k + 1) == app(cfun(k), Fx(k)))       # the recursive definition of the composition, instantiated at this iteration
+
+        def inv(st, k):
+            return [("value_so_far_is_the_composition_of_the_first_k_submodules", z3.And(to_z3_(st.env["out"]) == Fx(k), to_z3_(st.env["inp"]) == Fx(k)))]
+
+        def bind(st, k):
+            m_ = Obj("Module")
+            st.attrs(m_)["id"] = cfun(k)
+            return m_
+        ex.loop_contracts = {"self.submodules()": LoopContract("submodule_loop", lambda st: n, inv, havoc, bind)}
+        return s, [me, x], {"n": n, "x": x}
+
+    def ens_sf(ctx, s, out):
+        if isinstance(out, Raised):
+            return [("completes", False)]
+        return [("result_is_the_composition_in_registration_order", to_z3_(out.value) == Fx(ctx["n"]))]
+
+    def replay_sf(ctx, model, clause):
+        from synapgrad.nn.modules import Module, Sequential
+        log = []
+
+        class T(Module):
+            def __init__(self, k):
+                super().__init__()
+                object.__setattr__(self, "k", k)
+
+            def forward(self, x):
+                log.append(self.k)
+                return x * 10 + self.k
+        cases = {}
+        for n_ in range(0, 4):
+            del log[:]
+            got = Sequential(*[T(k_ + 1) for k_ in range(n_)])(7)
+            want = int("7" + "".join(str(k_ + 1) for k_ in range(n_)))
+            cases[n_] = (got, want, list(log))
+        bad = {k_: v for k_, v in cases.items() if v[0] != v[1] or v[2] != list(range(1, k_ + 1))}
+        return {"sequentials_of_0_to_3_submodules": {str(k_): {"got": v[0], "expected": v[1], "applied": v[2]} for k_, v in cases.items()}, "reproduced": bool(bad), "native_satisfies_contract": not bad}
+    ts.append(Target(NAME.replace("Module.", "Sequential.") + "forward[any number of submodules]", MOD, "Sequential.forward", setup_sf, ens_sf, replay=replay_sf, executor=lambda: Executor()))
 
     # ---- check_is_initialized: raises iff the module was not initialised
     def setup_ci(ex):
